@@ -24,13 +24,13 @@ type Addr struct {
 	Root  types.Type // type of the cell root (local) or struct (heap)
 	Elem  bool       // element of a slice backing array: Ref = array ref, Idx = absolute index, Root = element type
 	Idx   string
-	Sl    string     // slice term and relative index (for reads through the elt accessor)
+	Sl    string // slice term and relative index (for reads through the elt accessor)
 	RelIx string
 }
 
 type Obligation struct {
-	Name     string   // pkg.Func#kind.label@site~n (unique within the run)
-	Clause   string   // pkg.Func#kind.label (stable identity used for reporting and known findings)
+	Name     string // pkg.Func#kind.label@site~n (unique within the run)
+	Clause   string // pkg.Func#kind.label (stable identity used for reporting and known findings)
 	Func     string
 	Props    []string // properties of a tagged clause (nil: structural)
 	MustFail bool     // vacuity canary: must NOT be provable
@@ -40,26 +40,26 @@ type Obligation struct {
 }
 
 type Ctx struct {
-	prog    *ssa.Program
-	pkg     *ssa.Package
-	cs      *Contracts
-	n       int
-	decls   []string
-	defs    []string
-	dts     map[string]bool
-	dtDecls []string
-	obls    []Obligation
-	strlits map[string]string
-	heap0   map[string]string
-	heapSrt map[string]string
-	notes   []string
-	globals map[string]string
-	ifTags  map[string]int
-	oblN    int
-	specs   map[string]*specInfo
-	refuted map[string]bool // callee clauses known to be false on the real code (known findings): never assumed
-	addrVals map[string]Addr // contract-level stand-ins for addresses of locals / elements
-	property string // the property being checked (some property-derived obligations are raised only under their property)
+	prog     *ssa.Program
+	pkg      *ssa.Package
+	cs       *Contracts
+	n        int
+	decls    []string
+	defs     []string
+	dts      map[string]bool
+	dtDecls  []string
+	obls     []Obligation
+	strlits  map[string]string
+	heap0    map[string]string
+	heapSrt  map[string]string
+	notes    []string
+	globals  map[string]string
+	ifTags   map[string]int
+	oblN     int
+	specs    map[string]*specInfo
+	refuted  map[string]bool           // callee clauses known to be false on the real code (known findings): never assumed
+	addrVals map[string]Addr           // contract-level stand-ins for addresses of locals / elements
+	property string                    // the property being checked (some property-derived obligations are raised only under their property)
 	skipProp func(props []string) bool // ensures clauses of other properties are not checked in this run
 }
 
@@ -662,46 +662,46 @@ type retInfo struct {
 }
 
 type Frame struct {
-	ctx    *Ctx
-	fn     *ssa.Function
-	fc     *FuncContract
-	vals   map[ssa.Value]Val
-	tuples map[ssa.Value][]Val
-	addrs  map[ssa.Value]Addr
-	entry  *State
-	rets   []retInfo
-	top    bool
-	depth  int
-	locals map[string][]*ssa.Alloc
-	ptrParams []string // terms of pointer params
-	writeSet  map[string][]string // heap key -> references (entry values) the function may write (from modifies)
-	elemWrite []string            // slices (entry values) whose elements may be written in place
-	writeAll  bool                // sweep: effects unknown, every location is writable
-	curProps  []string            // properties of the clause whose obligation is being generated
-	refParams []string // all reference-like entry values (for freshness of allocations)
-	specdefs  map[string]types.Type
-	rawHavoc  []string
-	fnModMaps  []modRef   // maps the function may modify (entry values)
-	fnModInner []modInner // "o[*][*]": inner maps of o the function may modify
-	curLoops   []*loopMod // loops (with modifies clauses) enclosing the call site of an inlined callee
-	loopOf    map[*ssa.BasicBlock][]*loopMod // enclosing loops (with modifies clauses) of each block
-	closures  map[ssa.Value]*ssa.MakeClosure // closure values by SSA value
-	closCells map[*ssa.Alloc]*ssa.MakeClosure  // locals holding a closure (f := func(){...})
-	ptrCells  map[*ssa.Alloc]Addr // locals that hold the address of a slice element / field (the p := &xs[i] idiom)
-	inCommute    bool
+	ctx             *Ctx
+	fn              *ssa.Function
+	fc              *FuncContract
+	vals            map[ssa.Value]Val
+	tuples          map[ssa.Value][]Val
+	addrs           map[ssa.Value]Addr
+	entry           *State
+	rets            []retInfo
+	top             bool
+	depth           int
+	locals          map[string][]*ssa.Alloc
+	ptrParams       []string            // terms of pointer params
+	writeSet        map[string][]string // heap key -> references (entry values) the function may write (from modifies)
+	elemWrite       []string            // slices (entry values) whose elements may be written in place
+	writeAll        bool                // sweep: effects unknown, every location is writable
+	curProps        []string            // properties of the clause whose obligation is being generated
+	refParams       []string            // all reference-like entry values (for freshness of allocations)
+	specdefs        map[string]types.Type
+	rawHavoc        []string
+	fnModMaps       []modRef                        // maps the function may modify (entry values)
+	fnModInner      []modInner                      // "o[*][*]": inner maps of o the function may modify
+	curLoops        []*loopMod                      // loops (with modifies clauses) enclosing the call site of an inlined callee
+	loopOf          map[*ssa.BasicBlock][]*loopMod  // enclosing loops (with modifies clauses) of each block
+	closures        map[ssa.Value]*ssa.MakeClosure  // closure values by SSA value
+	closCells       map[*ssa.Alloc]*ssa.MakeClosure // locals holding a closure (f := func(){...})
+	ptrCells        map[*ssa.Alloc]Addr             // locals that hold the address of a slice element / field (the p := &xs[i] idiom)
+	inCommute       bool
 	pendingAddrArgs map[int]Addr // arguments of the call being dispatched that are addresses (for inlining)
-	sortedUseBad bool
-	forcedKey    string // commutes check: the key the next map-range Next must yield
-	commute      bool
-	loopRangeIdx map[int]*ssa.Alloc
-	loopIter     map[int]string // loop ordinal -> heap key of the iterator its header advances (iterseen / iterpos without a number)
-	loopHead  map[int]*State
-	iterN     int
-	iters     map[ssa.Value]iterInfo
-	iterKeys  map[int]string
-	fname  string
-	ghost  map[string]Val // ghost parameters of the contract
-	nLoops int
+	sortedUseBad    bool
+	forcedKey       string // commutes check: the key the next map-range Next must yield
+	commute         bool
+	loopRangeIdx    map[int]*ssa.Alloc
+	loopIter        map[int]string // loop ordinal -> heap key of the iterator its header advances (iterseen / iterpos without a number)
+	loopHead        map[int]*State
+	iterN           int
+	iters           map[ssa.Value]iterInfo
+	iterKeys        map[int]string
+	fname           string
+	ghost           map[string]Val // ghost parameters of the contract
+	nLoops          int
 }
 
 func funcKey(fn *ssa.Function) string {
